@@ -545,6 +545,11 @@ func normText(x interface{}) interface{} {
 			return v
 		}
 		if strings.Contains(v, " ") || len(v) > 24 {
+			// a diagnostic carries the text the script threw in full (the long throw is 399 repetitions of two
+			// non-ASCII characters): a text that lost part of it is another value
+			if n := strings.Count(v, "\u00e9\u4e16"); n > 0 && n != 399 {
+				return "<err-cut>"
+			}
 			return "<err>"
 		}
 		return v
